@@ -2,7 +2,7 @@
 # re-check every kept seed against the current machinery: apply its patch to a scratch worktree of /repo's HEAD, run the
 # property's quick check on it, expect exit 1 (a seed whose meta says "neutralised" is expected to stay green)
 # usage: tools/seed_regress.sh [jobs]
-cd /verif
+cd "$(dirname "$0")/.." && V=$PWD
 J=${1:-4}
 one() {
   d=$1; id=$(basename $d); prop=${id%%_*}
@@ -17,5 +17,5 @@ one() {
   fi
   git -C /repo worktree remove --force $wt
 }
-export -f one
-ls -d seeded/*/ | sed 's:/$::' | xargs -P $J -I{} bash -c 'one /verif/{}'
+export -f one; export V
+ls -d seeded/*/ | sed 's:/$::' | xargs -P $J -I{} bash -c 'one $V/{}'
